@@ -7,6 +7,11 @@
 //	R3  os.Stat / os.Lstat           -> verifsim.*
 //	R4  os.Stdout                    -> verifsim.Stdout()   (a *verifsim.File in sink mode)
 //	R9  the type os.File             -> verifsim.File       (so that code which names the type keeps compiling)
+//	R11 the types sync.Mutex, sync.RWMutex -> verifsim.Mutex, verifsim.RWMutex (acquiring is a schedule point; waiting blocks on a channel,
+//	    which a synctest bubble recognises as durable, so a goroutine parked inside a critical section cannot stall the simulator)
+//	R12 runtime.GOMAXPROCS(n), runtime.NumCPU() -> verifsim.GOMAXPROCS(n), verifsim.NumCPU() (the simulated machine has 8 processors whatever the worker's own setting)
+//	    (R5 also covers time.Since and time.Until)
+//	R13 verifsim.Yield(site) before a receive statement, before a select of receives, first in the body of a range over a channel
 //	R10 runtime.Gosched()            -> verifsim.Gosched()  (a politely spinning goroutine parks at the scheduler like at any other schedule point)
 //	R5  time.Now                     -> verifsim.Now
 //	R6  user.Current                 -> verifsim.CurrentUser
@@ -126,11 +131,11 @@ func relPos(fset *token.FileSet, p token.Pos) string {
 
 var redirect = map[string]map[string]string{
 	"os":      {"Open": "Open", "OpenFile": "OpenFile", "ReadFile": "ReadFile", "Stat": "Stat", "Lstat": "Lstat"},
-	"time":    {"Now": "Now"},
+	"time":    {"Now": "Now", "Since": "Since", "Until": "Until"},
 	"os/user": {"Current": "CurrentUser"},
-	"runtime": {"Gosched": "Gosched"},
+	"runtime": {"Gosched": "Gosched", "GOMAXPROCS": "GOMAXPROCS", "NumCPU": "NumCPU"},
 }
-var ruleOf = map[string]string{"Open": "R2", "OpenFile": "R2", "ReadFile": "R2", "Stat": "R3", "Lstat": "R3", "Now": "R5", "Current": "R6", "Gosched": "R10"}
+var ruleOf = map[string]string{"Open": "R2", "OpenFile": "R2", "ReadFile": "R2", "Stat": "R3", "Lstat": "R3", "Now": "R5", "Since": "R5", "Until": "R5", "Current": "R6", "Gosched": "R10", "GOMAXPROCS": "R12", "NumCPU": "R12"}
 
 func doFile(p *packages.Package, f *ast.File, path string) error {
 	fset := p.Fset
@@ -162,6 +167,29 @@ func doFile(p *packages.Package, f *ast.File, path string) error {
 				note(&rep.Rewritten, site{"R7", relPos(fset, n.Pos()), "select with send", ""})
 				rep.Counts["R7"]++
 				changed = true
+			} else if !hasSend && c.Index() >= 0 && len(n.Body.List) > 0 {
+				// R13: a receiver is a party of the schedule too (with a buffered channel the sender runs ahead
+				// only if the receiver can be held back)
+				c.InsertBefore(yieldCall(relPos(fset, n.Pos())))
+				note(&rep.Rewritten, site{"R13", relPos(fset, n.Pos()), "select with receives", ""})
+				rep.Counts["R13"]++
+				changed = true
+			}
+		case *ast.ExprStmt:
+			if u, ok := n.X.(*ast.UnaryExpr); ok && u.Op == token.ARROW && c.Index() >= 0 {
+				c.InsertBefore(yieldCall(relPos(fset, n.Pos())))
+				note(&rep.Rewritten, site{"R13", relPos(fset, n.Pos()), "receive", ""})
+				rep.Counts["R13"]++
+				changed = true
+			}
+		case *ast.AssignStmt:
+			if len(n.Rhs) == 1 && c.Index() >= 0 {
+				if u, ok := n.Rhs[0].(*ast.UnaryExpr); ok && u.Op == token.ARROW {
+					c.InsertBefore(yieldCall(relPos(fset, n.Pos())))
+					note(&rep.Rewritten, site{"R13", relPos(fset, n.Pos()), "receive", ""})
+					rep.Counts["R13"]++
+					changed = true
+				}
 			}
 		case *ast.GoStmt:
 			if fl, ok := n.Call.Fun.(*ast.FuncLit); ok {
@@ -205,6 +233,13 @@ func doFile(p *packages.Package, f *ast.File, path string) error {
 			if t == nil {
 				return true
 			}
+			if _, isChan := t.Underlying().(*types.Chan); isChan && n.Body != nil {
+				n.Body.List = append([]ast.Stmt{yieldCall(relPos(fset, n.Pos()))}, n.Body.List...)
+				note(&rep.Rewritten, site{"R13", relPos(fset, n.Pos()), "range over channel", ""})
+				rep.Counts["R13"]++
+				changed = true
+				return true
+			}
 			mt, ok := t.Underlying().(*types.Map)
 			if !ok {
 				return true
@@ -228,6 +263,14 @@ func doFile(p *packages.Package, f *ast.File, path string) error {
 				return true
 			}
 			pkg, name := obj.Pkg().Path(), obj.Name()
+			if _, isType := obj.(*types.TypeName); isType && pkg == "sync" && (name == "Mutex" || name == "RWMutex") {
+				at := relPos(fset, n.Pos())
+				n.X = ast.NewIdent("verifsim")
+				note(&rep.Rewritten, site{"R11", at, "sync." + name, ""})
+				rep.Counts["R11"]++
+				changed = true
+				return false
+			}
 			if _, isType := obj.(*types.TypeName); isType && pkg == "os" && name == "File" {
 				at := relPos(fset, n.Pos())
 				n.X = ast.NewIdent("verifsim")
@@ -298,7 +341,7 @@ func doFile(p *packages.Package, f *ast.File, path string) error {
 		return nil
 	}
 	astutil.AddImport(fset, f, *simPkg)
-	for _, imp := range []string{"os", "time", "os/user", "runtime"} {
+	for _, imp := range []string{"os", "time", "os/user", "runtime", "sync"} {
 		if !astutil.UsesImport(f, imp) {
 			astutil.DeleteImport(fset, f, imp)
 		}
@@ -395,7 +438,61 @@ func stageSelect(n *ast.SelectStmt, pos string) (ast.Stmt, string) {
 		block.List = append(block.List, notTaken(sw))
 	}
 	block.List = append(block.List, notTaken(&ast.SelectStmt{Body: n.Body}))
+	if terminatingSelect(n) {
+		// the select was a terminating statement (it may be the last statement of a function with results):
+		// every clause leaves the function, so nothing after it is ever reached - say so to the compiler
+		block.List = append(block.List, &ast.ExprStmt{X: &ast.CallExpr{Fun: id("panic"), Args: []ast.Expr{&ast.BasicLit{Kind: token.STRING, Value: `"hrsim: unreachable"`}}}})
+	}
 	return block, ""
+}
+
+// terminatingSelect is a conservative version of the language's rule: every clause ends in a return or
+// a call of panic, and no clause contains a break that could refer to the select.
+func terminatingSelect(n *ast.SelectStmt) bool {
+	for _, cl := range n.Body.List {
+		cc := cl.(*ast.CommClause)
+		if len(cc.Body) == 0 {
+			return false
+		}
+		switch last := cc.Body[len(cc.Body)-1].(type) {
+		case *ast.ReturnStmt:
+		case *ast.ExprStmt:
+			call, ok := last.X.(*ast.CallExpr)
+			if !ok {
+				return false
+			}
+			if f, ok := call.Fun.(*ast.Ident); !ok || f.Name != "panic" {
+				return false
+			}
+		default:
+			return false
+		}
+		breaks := false
+		for _, st := range cc.Body {
+			ast.Inspect(st, func(x ast.Node) bool {
+				switch b := x.(type) {
+				case *ast.ForStmt, *ast.RangeStmt, *ast.SwitchStmt, *ast.TypeSwitchStmt, *ast.SelectStmt, *ast.FuncLit:
+					// an unlabelled break in there refers to that statement; a labelled one is found below
+					ast.Inspect(b, func(y ast.Node) bool {
+						if br, ok := y.(*ast.BranchStmt); ok && br.Tok == token.BREAK && br.Label != nil {
+							breaks = true
+						}
+						return true
+					})
+					return false
+				case *ast.BranchStmt:
+					if b.Tok == token.BREAK {
+						breaks = true
+					}
+				}
+				return true
+			})
+		}
+		if breaks {
+			return false
+		}
+	}
+	return true
 }
 
 func yieldCall(pos string) ast.Stmt {
